@@ -82,6 +82,28 @@ def gen_spec(rng, wide_times=False):
     return {"s": s, "std": std, "dst": dst, "sr": sr, "st": 7200 if st is None else st, "er": er,
             "et": 7200 if et is None else et, "south": south}
 
+def spelling_family(s):
+    """the spelling families of C08.tzstr_render_partial present in a generated string (for the evidence)"""
+    import re
+    head, r1, r2 = s.split(",")
+    fams = []
+    for part in re.findall(r"[A-Za-z]+([+-]?[0-9:]*)", head):
+        if part:
+            sign = "+" if part[0] == "+" else ("-" if part[0] == "-" else "nosign")
+            body = part.lstrip("+-")
+            sp = "hh:mm" if ":" in body else ("hhmm" if len(body) == 4 else "h")
+            fams.append("offset:%s:%s" % (sign, sp))
+        else:
+            fams.append("offset:absent")
+    for r in (r1, r2):
+        rule, _, tm = r.partition("/")
+        fams.append("rule:" + ("M" if rule.startswith("M") else "J" if rule.startswith("J") else "n"))
+        if not tm:
+            fams.append("time:absent")
+        else:
+            fams.append("time:" + ("hh:mm:ss" if tm.count(":") == 2 else "hh:mm" if ":" in tm else "hhmm" if len(tm) == 4 else "h"))
+    return fams
+
 def posix_canon(spec):
     """the same specification in strict POSIX spelling (h[:mm[:ss]] offsets and times), for glibc"""
     def hms(x):
@@ -218,7 +240,10 @@ def correspondence(ctx):
     strings = list(FIXED_STRINGS)
     n = ctx.budget(1500, 40000)
     for _ in range(n // 3):
-        strings.append(gen_spec(rng, wide_times=True)["s"])
+        gs = gen_spec(rng, wide_times=True)["s"]
+        strings.append(gs)
+        for fam in spelling_family(gs):        # the families of C08.tzstr_render_partial, sent to both sides
+            ctx.count("render_family:" + fam)
     base = list(strings)
     for _ in range(n):
         s = rng.choice(base)
